@@ -122,7 +122,7 @@ impl<'a> Driver<'a> {
                 f(&buf, st, Count::No);
                 buf.clear();
                 buf.extend_from_slice(&b);
-                f(&buf, st, Count::No);
+                with_predecessors(&[nb.as_slice()], || f(&buf, st, Count::No));
             }
             st.class("evaluated-after-a-neighbour");
         });
@@ -154,8 +154,10 @@ impl<'a> Driver<'a> {
     pub fn first(&mut self, items: &[Vec<u8>]) {
         let f = self.f;
         let mut st = Stats::new();
-        for b in items {
-            f(b, &mut st, Count::No);
+        for (i, b) in items.iter().enumerate() {
+            // the item before it (its base, for a slip) goes into the case: a replay evaluates it first
+            let preds: Vec<&[u8]> = if i > 0 { vec![items[i - 1].as_slice()] } else { vec![] };
+            with_predecessors(&preds, || f(b, &mut st, Count::No));
         }
         self.absorb(st);
         self.total.subspace("hidden state from a cold start: sanitisation slips, each right after its base, as the first inputs of the process (one thread, list order)", items.len() as u64, true);
